@@ -1781,11 +1781,115 @@ impl Family for SymbolNames {
     }
 }
 
+/// A conditional in the MIDDLE of a definition: the branches hold fields, closing braces, the keyword of the
+/// definition, parameters, pieces of a type, attributes and doc comment lines. The oracle is differential and has no
+/// hand-written expectation: the reference preprocessor (above) says which rows are selected; the "twin" is the same
+/// text with every directive row and every unselected row emptied (rows and columns of what remains are unchanged), so
+/// it holds no directive at all. Both texts must give the same normalised syntax tree (every span included) and the
+/// same diagnostics (code, level, message, span, notes).
+pub struct SplitDefinitions;
+const SD_FILES: [&[&str]; 12] = [
+    &["module X", "struct S {", "#if A", "    a: int32,", "#elif B", "    a: string,", "#else", "    a: Nope,", "#endif", "    b: bool,", "}"],
+    &["module X", "struct S {", "    a: int32,", "#if A", "}", "struct T {", "#endif", "    b: bool,", "}"],
+    &["module X", "#if A", "compact struct S {", "#else", "struct S {", "#endif", "    a: int32,", "#if B", "    tag(1) b: bool?,", "#endif", "}"],
+    &["module X", "enum E : uint8 {", "#if A", "    A = 1,", "#endif", "#if B", "    B = 1,", "#endif", "#if !A && (!B)", "    // nothing", "#endif", "}"],
+    &["module X", "interface I {", "    op(", "#if A", "        a: int32,", "#endif", "#if B", "        b: string,", "#endif", "    ) ->", "#if A && B", "    (x: int32, y: int32)", "#else", "    bool", "#endif", "}"],
+    &["module X", "/// Summary line.", "#if A", "/// Second line under A.", "#endif", "#if B", "[deprecated(\"b\")]", "#endif", "struct S {", "    /// doc of a", "#if A", "    a: int32,", "#else", "    [deprecated] a: int32,", "#endif", "}"],
+    &["module X", "typealias T =", "#if A", "    Sequence<", "#else", "    Dictionary<int32,", "#endif", "    string", "#if B", "    ?", "#endif", "    >", "struct S { t: T }"],
+    &["#if A", "module X", "#else", "module Y", "#endif", "struct S {", "#if B", "    this is not slice at all (((", "#endif", "    a: int32", "}"],
+    &["module X", "struct S {", "#define C", "    a: int32,", "#if C && A", "    b: bool,", "#endif", "#undef C", "#if C", "    c: Nope,", "#endif", "#if B", "#define C", "#endif", "#if C", "    d: S,", "#endif", "}"],
+    &["module X", "unchecked enum E : int32 {", "#if A", "#if B", "    AB = 3,", "#else", "    A = 1,", "#endif", "#elif B", "    B = 2,", "#endif", "}", "interface I { op() ", "#if A || B", "-> E?", "#endif", "}"],
+    // inside an attribute keywords are plain identifiers: the branch boundary must not end that
+    &["module X", "[foo::bar(", "#if A", "    struct,", "#endif", "    module", "#if B", "    , interface", ")]", "[deprecated(", "#endif", ")]", "struct S { a: int32 }"],
+    &["module X", "struct S {", "    a: Sequence<", "#if A", "        [cs::type(\"List\")]", "#endif", "        int32", "#if B", "    >?,", "#else", "    >,", "#endif", "}"],
+];
+impl SplitDefinitions {
+    fn build(idx: u64) -> (String, Vec<&'static str>, usize) {
+        let n = SD_FILES.len() as u64;
+        let t = (idx % n) as usize;
+        let syms: Vec<&'static str> = [vec![], vec!["A"], vec!["B"], vec!["A", "B"]][((idx / n) % 4) as usize].clone();
+        let eol = if (idx / (n * 4)) % 2 == 1 { "\r\n" } else { "\n" };
+        let indent = ["", "  ", "\t"][((idx / (n * 8)) % 3) as usize];
+        let lines: Vec<String> = SD_FILES[t].iter().map(|l| if l.starts_with('#') { format!("{indent}{l}") } else { l.to_string() }).collect();
+        (lines.join(eol), syms, t)
+    }
+    fn observe(text: &str, syms: &[&str]) -> Result<(String, Vec<crate::model::run::DiagObs>, usize), (String, String)> {
+        guarded(|| {
+            let mut options = SliceOptions::default();
+            options.defined_symbols = syms.iter().map(|s| s.to_string()).collect();
+            let state = slicec::compile_from_strings(&[text], Some(&options));
+            let tree = format!("{:#?}", crate::model::observe::files(&state));
+            let n_defs = state.files.iter().map(|f| f.contents.len()).sum();
+            let diags = state.diagnostics.into_inner().iter().map(crate::model::run::diag_obs).collect();
+            (tree, diags, n_defs)
+        })
+    }
+}
+impl Family for SplitDefinitions {
+    fn name(&self) -> String {
+        format!("split-definitions/{} files in which conditionals (with #elif, nesting, #define / #undef in between) cut a definition into pieces - fields, the closing brace, the keyword, parameters and return types, pieces of a type, attributes and the inside of an attribute, doc comment lines, the module line - x 4 symbol sets x LF / CRLF x 3 indentations of the directives: same tree (all spans) and same diagnostics as the twin text in which the reference preprocessor emptied every directive and every unselected row", SD_FILES.len())
+    }
+    fn len(&self) -> u64 {
+        SD_FILES.len() as u64 * 4 * 2 * 3
+    }
+    fn describe(&self, idx: u64) -> Value {
+        let (text, syms, t) = Self::build(idx);
+        json!({"template": t, "file": text, "symbols": syms})
+    }
+    fn run(&self, idx: u64) -> CaseOut {
+        let (text, syms, t) = Self::build(idx);
+        let mut out = CaseOut::new(hash_str(&format!("sd{idx}")));
+        let fam = "c06/split-definitions";
+        let start: BTreeSet<String> = syms.iter().map(|s| s.to_string()).collect();
+        let r = reference(&text, &start);
+        if !r.wellformed {
+            out.violate(format!("{fam}/machinery-template-not-wellformed"), format!("template {t}"));
+            return out;
+        }
+        // the twin: directive rows and unselected rows emptied (a '\r' at the end of a row stays)
+        let twin: String = text
+            .split('\n')
+            .enumerate()
+            .map(|(i, raw)| if r.kept_rows.contains(&(i + 1)) { raw.to_string() } else if raw.ends_with('\r') { "\r".to_string() } else { String::new() })
+            .collect::<Vec<_>>()
+            .join("\n");
+        debug_assert!(!twin.contains('#'));
+        let ctx = || format!("symbols {syms:?}\n--- file ---\n{text}\n--- twin (what the reference preprocessor keeps) ---\n{twin}");
+        let (real, twin_obs) = match (Self::observe(&text, &syms), Self::observe(&twin, &[])) {
+            (Ok(a), Ok(b)) => (a, b),
+            (Err((loc, msg)), _) => {
+                out.violate(format!("{fam}/panic@{loc}"), format!("panic at {loc}: {msg}\n{}", ctx()));
+                return out;
+            }
+            (_, Err((loc, msg))) => {
+                // the twin has no directive in it: whatever happens there is not about conditional compilation
+                out.class = format!("twin-panics@{loc}:{}", truncate(&msg, 40));
+                return out;
+            }
+        };
+        out.validated = 1;
+        out.steps = 2;
+        out.nontrivial = r.nontrivial;
+        out.class = format!("template{t}:{}-definitions:{}", twin_obs.2, if twin_obs.1.iter().any(|d| d.level == "error") { "errors" } else { "clean" });
+        if real.1 != twin_obs.1 {
+            out.violate(format!("{fam}/diagnostics-differ-from-the-selected-text"), format!("with the conditionals: {:#?}\nselected text alone: {:#?}\n{}", real.1, twin_obs.1, ctx()));
+        }
+        if real.0 != twin_obs.0 {
+            let (a, b): (Vec<&str>, Vec<&str>) = (real.0.lines().collect(), twin_obs.0.lines().collect());
+            let at = a.iter().zip(b.iter()).position(|(x, y)| x != y).unwrap_or(a.len().min(b.len()));
+            let show = |v: &Vec<&str>| v[at.saturating_sub(6)..(at + 6).min(v.len())].join("\n");
+            out.violate(format!("{fam}/tree-differs-from-the-selected-text"), format!("first difference at line {at} of the dumps\nwith the conditionals:\n{}\nselected text alone:\n{}\n{}", show(&a), show(&b), ctx()));
+        }
+        out
+    }
+}
+
 pub fn families(tier: &str) -> Vec<Box<dyn Family>> {
     let quick = tier == "quick";
     let mut v: Vec<Box<dyn Family>> = vec![];
     v.push(Box::new(ConditionalModule));
     v.push(Box::new(SymbolNames));
+    v.push(Box::new(SplitDefinitions));
     v.push(Box::new(ElifChains { max_branches: if quick { 3 } else { 4 } }));
     // small, cheap families first so that a wall cap can only cut the largest sequence family
     v.push(Box::new(ExprTrees { depth: if quick { 3 } else { 4 }, exprs: gen_exprs(if quick { 3 } else { 4 }) }));
